@@ -19,6 +19,9 @@ type StartCase struct {
 	Who string `json:"who"` // server | client
 	Max int    `json:"max"`
 	WQ  int    `json:"wq"`
+	// Proto: the client's forced transport protocol ("" = automatic | udp | tcp | mcast);
+	// the server's multicast settings on / off for "mcast".
+	Proto string `json:"proto,omitempty"`
 }
 
 // Scenario is one C18 run.
@@ -219,6 +222,8 @@ func gen(seed uint64, tier string) Scenario {
 		default:
 			st.Max, st.WQ = goodMax(), goodWQ()
 		}
+		// hash-derived so that no other choice moves
+		st.Proto = []string{"", "", "udp", "tcp", "tcp", "mcast"}[core.HS(seed, "c18.startproto", "", uint64(i))%6]
 		sc.Starts = append(sc.Starts, st)
 	}
 
